@@ -12,6 +12,11 @@ use yverif::rng::Rng;
 /// Every `REAL_EVERY`-th case also runs on the real `yash3` binary (through `yash_cli::main`, its
 /// argument parsing and `run_as_shell_process`): the observation must be the same.
 fn real_leg(case: &str, obs: &str) -> Option<String> {
+    // the command-search names need `$PATH` entries and substitutive built-ins the prologue of the
+    // real-binary run cannot provide
+    if ["sbin", "sbout", "xtin", "xtpath"].iter().any(|n| case.contains(n)) {
+        return None;
+    }
     let (seed, lines) = parse_case(case)?;
     let real = observe_real(seed, &lines);
     if real == "NO-BINARY" {
@@ -79,7 +84,7 @@ fn main() {
             continue;
         }
         let mut g = Gen {
-            call_limit: 4,
+            call_limit: yverif::prog::CALLABLE,
             loop_depth: 0,
             rng: Rng::new(s),
             marker: 0,
